@@ -24,3 +24,20 @@ Print Assumptions anf_is_wrap_of_flat.
 From Goml Require Import C09.Eqb C09.EqbSound.
 Check (corr_true_means_equal : forall body n0 real, fst (corr body n0 real) = true -> fst (anf_fn (depth body) body n0) = real).
 Print Assumptions corr_true_means_equal.
+From Goml Require Import Sem.GoAst Sem.GoSem C09.Dce C09.DceProofs.
+Check (effect_free_expression_is_unobservable :
+  forall fns ifaces smethods fuel e rho s, has_effects e = false ->
+  match eval fns ifaces smethods fuel e rho s with
+  | Ok (_, s') => out s' = out s /\ exists ext, heap s' = heap s ++ ext
+  | Panic m o => (m = s_nil \/ m = s_assert) /\ o = out s
+  | _ => True
+  end).
+Print Assumptions effect_free_expression_is_unobservable.
+Check (effect_free_statement_is_unobservable :
+  forall fns ifaces smethods fuel st rho s, stmt_has_effects st = false ->
+  match exec fns ifaces smethods fuel st rho s with
+  | Ok (_, _, s') => out s' = out s /\ exists ext, heap s' = heap s ++ ext
+  | Panic m o => (m = s_nil \/ m = s_assert) /\ o = out s
+  | _ => True
+  end).
+Print Assumptions effect_free_statement_is_unobservable.
